@@ -74,7 +74,7 @@ class C13(Check):
     prop = "C13"
     required_theorems = ["table_covers_registered_methods", "all_methods_listed", "ofName_name",
                          "accept_implies_entitled_zone_internal", "accept_implies_entitled_config",
-                         "accept_implies_entitled_command", "accept_implies_entitled_session",
+                         "accept_implies_entitled_command", "forwarded_only_downwards", "accept_implies_entitled_session",
                          "accept_implies_entitled_cert_update", "accept_implies_entitled_update_from_other_zone",
                          "removal_info_only_from_own_zone_or_above",
                          "accept_implies_entitled_partial", "accept_implies_entitled_counterexample",
@@ -98,7 +98,7 @@ class C13(Check):
                   "evaluated on the implementation's observations")
     level_note = ("Trusted: Lean kernel (+ propext, Classical.choice, Quot.sound), translator gen/c13_apifunctions.py, harness/driver, the sampled "
                   "correspondence. Certificate verification is an input bit. Not modelled: what an accepted update does to the object, the "
-                  "forwarding branch of ExecuteCommand (endpoint parameter naming another node), parameter validation inside handlers; the "
+                  "two error-notice branches of the ExecuteCommand forwarding path (child without ExecuteArbitraryCommand, child zone cannot access the checkable), parameter validation inside handlers; the "
                   "own-certificate branch of pki::UpdateCertificate is exercised by two corpus cases only.")
     trusted_base = [
         "translator gen/c13_apifunctions.py (regex over REGISTER_APIFUNCTION in /repo/lib; a lost anchor is reported as a broken tie)",
@@ -106,7 +106,7 @@ class C13(Check):
         "(Endpoint::OnAllConfigLoaded enforces it); zone chains of loaded configurations have at most 33 levels (Zone::OnAllConfigLoaded), "
         "the model's IsChildOf walks with fuel 40 (the theorems hold for every fuel)",
         "the decision table covers the guards in front of each handler's effect, for well-formed parameters; the effect itself, the "
-        "ExecuteCommand forwarding branch is outside the model; both branches of pki::UpdateCertificate sit behind the one modelled guard",
+        "the two error-notice branches inside the ExecuteCommand forwarding path are outside the model (the harness keeps them from being taken); both branches of pki::UpdateCertificate sit behind the one modelled guard",
     ]
     assumptions = [
         "objects are created by the harness directly (new Host/Service/Notification/Comment + Register/OnAllConfigLoaded/Activate), "
@@ -195,7 +195,7 @@ class C13(Check):
                     "position (thorough: also sibling and unrelated root): for each of the 28 registered methods the complete grid "
                     "sender (every zone's endpoint incl. own-zone peer, unverified certificate, unconfigured identity, anonymous) x originZone "
                     "(absent, unknown, every zone for own-zone senders; absent/local for the others) x object zone (every zone, unset) resp. "
-                    "execution-endpoint zone / accept_config / accept_commands / command-endpoint bit, the remaining flags rotating; plus "
+                    "execution-endpoint zone / ExecuteCommand target node in every zone (forwarding) / accept_config / accept_commands / command-endpoint bit, the remaining flags rotating; plus "
                     "seeded random forests of depth <= 3 (3 quick / 24 thorough) sampled from the same grid, plus a malformed stream "
                     "(named objects do not exist); corpus cases first. evaluations = messages handled; a case is non-trivial when the "
                     "connection has an endpoint, i.e. the zone guards (not the anonymous test) decided; distinct by (forest, operation) text "
